@@ -8,7 +8,10 @@ Direction A.  TLC enumerates (BFS) / samples (-simulate)
   stmt  statement trees with the sequence of ev(k) calls and the return value computed by the continuation-stack
         semantics of spec/CStmt.tla;
   init  brace-enclosed initialiser lists for one aggregate (designators, nested lists, strings, bit-fields, partial
-        lists, overriding) with the member values computed by spec/CInit.tla.
+        lists, overriding) with the member values computed by spec/CInit.tla;
+  bytes objects of every integer/floating scalar type whose bytes are stored / read through char, signed char and
+        unsigned char pointers between stores and reloads of the object (spec/CBytes.tla: C11 6.2.6.1, 6.5p7), in four
+        placements of the object (local, file-scope static, struct member, through pointer parameters).
 Binding: cases are rendered into batch C files.  Every expression appears (C) where C requires an integer constant
 expression (enum value, static initialiser, _Static_assert, case label, array bound) so that c2mir's compile-time
 evaluation is used, (R) over file-scope volatile objects so that run-time code is used and (L) over plain locals
@@ -53,6 +56,7 @@ JOBS = {
         ("e_sim", "CExpr", "CExpr_sim.cfg", 2, 3000, 40, {}),        # depth <= 3, full grid, constant-expression capable
         ("e_simrt", "CExpr", "CExpr_simrt.cfg", 2, 3000, 40, {}),    # depth <= 3 with assignments, ++/--, bit-fields
         ("i_2", "CInit", "CInit_mc.cfg", 1, None, None, {}),         # initialiser lists of <= 2 items for struct S
+        ("b_all", "CBytes", "CBytes_mc.cfg", 1, None, None, {}),     # bytes of every scalar type accessed through character pointers
         ("s_d2", "CStmt", "CStmt_mc.cfg", 2, None, None, {}),        # statement trees depth <= 2, <= 5 nodes
         ("s_sim", "CStmt", "CStmt_sim.cfg", 2, 4000, 60, {}),        # statement trees depth <= 3, <= 14 nodes
     ],
@@ -68,6 +72,7 @@ JOBS = {
         ("e_sim", "CExpr", "CExpr_sim.cfg", 8, 60000, 40, {}),
         ("e_simrt", "CExpr", "CExpr_simrt.cfg", 8, 60000, 40, {}),
         ("i_3", "CInit", "CInit_t.cfg", 2, None, None, {}),
+        ("b_all", "CBytes", "CBytes_mc.cfg", 1, None, None, {}),
         ("s_d2", "CStmt", "CStmt_mc.cfg", 2, None, None, {}),
         ("s_d3", "CStmt", "CStmt_t.cfg", 8, None, None, {}),
         ("s_sim", "CStmt", "CStmt_sim.cfg", 8, 40000, 60, {}),
@@ -84,6 +89,7 @@ SUF = {"i": "", "u": "U", "l": "L", "ul": "UL", "ll": "LL", "ull": "ULL"}
 M64 = (1 << 64) - 1
 
 PRELUDE = """#include <stdio.h>
+#include <string.h>
 #define TN(e) _Generic((e), _Bool:"B", char:"c", signed char:"sc", unsigned char:"uc", short:"s", unsigned short:"us", \\
   int:"i", unsigned:"u", long:"l", unsigned long:"ul", long long:"ll", unsigned long long:"ull", default:"?")
 #define U64(e) ((unsigned long long)(e))
@@ -262,6 +268,38 @@ def render_init(c, i):
             "}"]
 
 
+CT = dict({k: v[0] for k, v in TYPES.items()}, f="float", d="double")
+BYTES_FIELDS = ["object", "b0", "b1"]
+
+
+def bytes_expected(c):
+    return {"Y": ["%x" % int(c["y"], 16), str(c["b0"]), str(c["b1"])]}
+
+
+def render_bytes(c, i):
+    """X is the object, P the character pointer to its first byte; the placement decides how the object is declared"""
+    T, P, pl = CT[c["ty"]], CT[c["pt"]], c["place"]
+    X = {"loc": "x", "glob": "gx%d" % i, "mem": "s.m", "par": "(*q)"}[pl]
+    body = [re.sub(r"\bP\[", "p[", re.sub(r"\bX\b", X, st)) for st in c["st"]]
+    tail = ["  { unsigned long long o = 0; memcpy(&o, &y, sizeof y); printf(\"%d Y %%llx %%d %%d\\n\", o, b0, b1); }" % i]
+    L = []
+    if pl == "glob":
+        L.append("static %s gx%d;" % (T, i))
+    if pl == "par":
+        L += ["static void h%d(%s *q, %s *p) {" % (i, T, P), "  %s y; int b0 = 0, b1 = 0;" % T] + ["  " + b for b in body] + tail + ["}",
+              "static void (*volatile fp%d)(%s *, %s *) = h%d;" % (i, T, P, i),
+              "static void c%d(void) { %s x; fp%d(&x, (%s *)&x); }" % (i, T, i, P)]
+        return L
+    L.append("static void c%d(void) {" % i)
+    if pl == "loc":
+        L.append("  %s x;" % T)
+    if pl == "mem":
+        L.append("  struct { long pad; %s m; } s;" % T)
+    L.append("  %s *p = (%s *)&%s; %s y; int b0 = 0, b1 = 0;" % (P, P, X, T))
+    L += ["  " + b for b in body] + tail + ["}"]
+    return L
+
+
 def render_file(cases, ids):
     fam = cases[0]["fam"]
     L = [PRELUDE]
@@ -270,16 +308,20 @@ def render_file(cases, ids):
     if fam == "init":
         L.append(INIT_PRELUDE)
     for c, i in zip(cases, ids):
-        L += render_stmt(c, i) if fam == "stmt" else render_init(c, i) if fam == "init" else render_expr(c, i)
+        L += (render_stmt(c, i) if fam == "stmt" else render_init(c, i) if fam == "init" else render_bytes(c, i) if fam == "bytes"
+              else render_expr(c, i))
     # every case runs in a child process with its own time limit, so that a crash or an endless loop produced by the
     # compiler under test costs one case ("<id> X <wait status>") and not the batch
     for c, i in zip(cases, ids):
         if fam == "stmt":
             L.append("static void w%d(void) { printf(\"%d S\"); { int r = c%d(); printf(\" ret=%%d\\n\", r); } }" % (i, i, i))
-    L.append(RUNNER)
+    # (statement files only: there a wrong compiler typically loops; a fork per case costs about 1 ms of system time, too
+    # much for the 85 000 expression cases, whose rare run-time crashes are isolated by re-running the rest of the batch)
+    if fam == "stmt":
+        L.append(RUNNER)
     L.append("int main(void) {")
     for c, i in zip(cases, ids):
-        L.append("  run_case(%s%d, %d);" % ("w" if fam == "stmt" else "c", i, i))
+        L.append("  run_case(w%d, %d);" % (i, i) if fam == "stmt" else "  c%d(); fflush(stdout);" % i)
     L.append("  printf(\"END\\n\");")
     L.append("  return %d;" % (len(cases) % 50 + 3))
     L.append("}")
@@ -300,7 +342,8 @@ static void run_case(void (*f)(void), int id) {
 
 
 def expected(c):
-    return stmt_expected(c) if c["fam"] == "stmt" else init_expected(c) if c["fam"] == "init" else expr_expected(c)
+    return (stmt_expected(c) if c["fam"] == "stmt" else init_expected(c) if c["fam"] == "init" else bytes_expected(c) if c["fam"] == "bytes"
+            else expr_expected(c))
 
 
 # ----------------------------------------------------------------------------------------------- running
@@ -377,7 +420,7 @@ class Stats:
         self.feat = collections.Counter()
 
 
-FIELDS = {"G": [], "T": [], "U": [], "K": [], "C": ["type", "size", "value", "enum", "arr", "case"], "R": ["type", "size", "value"], "L": ["type", "size", "value"],
+FIELDS = {"Y": [], "G": [], "T": [], "U": [], "K": [], "C": ["type", "size", "value", "enum", "arr", "case"], "R": ["type", "size", "value"], "L": ["type", "size", "value"],
           "S": []}
 
 
@@ -391,6 +434,8 @@ def diff_fields(ctx, exp, got):
         return [] if exp == got else ["events"]
     if ctx in "GLTUK" and len(exp) == 13:
         names = INIT_FIELDS
+    if ctx == "Y":
+        names = BYTES_FIELDS
     for k in range(max(len(exp), len(got))):
         a = exp[k] if k < len(exp) else None
         b = got[k] if k < len(got) else None
@@ -555,7 +600,7 @@ K_INIT_OVR = "cinit:static:later_initialiser_of_same_scalar_ignored"
 K_INIT_PAS = "cinit:positional_initialiser_after_string_literal_member"
 K_INIT_SAB = "cinit:auto:string_literal_member_after_bitfield_or_later_member"
 CTXNAME = {"C": "const_fold", "R": "runtime", "L": "local", "S": "stmt", "*": "program", "G": "static", "T": "assigned_copy",
-           "U": "passed_and_returned", "K": "compound_literal"}
+           "U": "passed_and_returned", "K": "compound_literal", "Y": "bytes"}
 NARROW = {"B", "c", "sc", "uc", "s", "us"}
 O2GROUP = {"eg-O2", "eg-O3", "el", "eb"}
 
@@ -577,6 +622,9 @@ def classify(fails):
     for r in rows:
         c, eng, ctx, fields, ef, got, st = r
         only_o2 = engs[id(c)] <= O2GROUP
+        if c["fam"] == "bytes":
+            keyed.append(("cbytes:%s:%s" % ("+".join(fields), c["sig"]), r))
+            continue
         if c["fam"] == "init":
             fl = c.get("fl", [])
             if "pas" in fl:
@@ -682,12 +730,15 @@ def gen_cases(jobs, stats, maxpar=None):
         tot_states += r.states
         tot_distinct += r.distinct
         stats.cnt["tlc_wall_s"] += int(r.wall)
-        fam = {"CStmt": "stmt", "CInit": "init"}.get(kw["module"], "expr")
+        fam = {"CStmt": "stmt", "CInit": "init", "CBytes": "bytes"}.get(kw["module"], "expr")
         for o in r.outs:
             if "u" in o:
                 stats.cnt["dropped_%s_%s" % (fam, o["u"] if isinstance(o["u"], str) else "undefined")] += 1
                 continue
-            k = (o["c"], o["r"], json.dumps(o["lv"], sort_keys=True)) if fam == "expr" else o["body"] if fam == "stmt" else o["init"]
+            k = ((o["c"], o["r"], json.dumps(o["lv"], sort_keys=True)) if fam == "expr" else o["body"] if fam == "stmt" else o["init"]
+                 if fam == "init" else (o["sig"], o["k"], tuple(o["st"])))
+            if fam == "bytes":
+                o["d"] = 0
             if fam == "init":
                 o["d"] = o["n"]
             if k in seen:
@@ -704,6 +755,8 @@ def describe(c):
         return c["body"][:500]
     if c["fam"] == "init":
         return "struct S x = " + c["init"]
+    if c["fam"] == "bytes":
+        return "%s object X (%s), P = (%s *)&X: %s" % (CT[c["ty"]], c["place"], CT[c["pt"]], " ".join(c["st"]))
     s = "`%s`" % (c["c"] or c["r"])
     if c["lv"]:
         s += " with " + " ".join(decl_text(d, False) for d in c["lv"])
